@@ -1,4 +1,5 @@
-"""Controlled-schedule runs on the real registry + adapter transport, shared by C01 / C06 / C13."""
+"""Controlled-schedule runs on the real registry + adapter transport and + NATS transport (embedded server),
+shared by C01 / C06 / C13."""
 import os
 
 import vlib
@@ -18,6 +19,45 @@ def gen_reqs(rng, n, profiles, max_callers=6, steps=(25, 60)):
                 touts.append(rng.choice([0, 0, 0, 20, 35]))
         reqs.append({"seed": rng.randrange(1, 2 ** 31), "callers": k, "steps": rng.randrange(*steps),
                      "timeouts_ms": touts, "profile": profile})
+    return reqs
+
+
+NATS_MAX = 1024 * 1024
+
+
+def gen_nats_reqs(rng, n, profiles, max_callers=6, steps=(25, 60)):
+    """Schedules for the NATS mode of vh_reg. Per caller: len(data) (4 = the empty frame Request answers with (nil, nil);
+    > 1 MiB = oversize, detected AFTER Register; exactly 1 MiB = largest accepted), an FContext shared with an earlier
+    caller (same op id: Register fails while the other is in flight), a malformed _opid header (Register refuses it), a timeout; `reserve` callers are started only after
+    the transport has been closed (NOT_OPEN). Profiles: mixed | wedge | timeouts | status (many 503 and discarded
+    messages) | noresp (nobody subscribes to the request subject: the server sends the 503s) | puberr (server with a
+    256 KiB max_payload: PublishRequest fails for 300 KB requests)."""
+    reqs = []
+    for i in range(n):
+        k = rng.randrange(1, max_callers + 1)
+        profile = profiles[i % len(profiles)]
+        touts, sizes, share, badop = [], [], [], []
+        for j in range(k):
+            if profile == "timeouts":
+                touts.append(rng.choice([15, 25, 40, 0, -1]))      # -1: SetTimeout(0), time.After(0) fires at once
+            else:
+                touts.append(rng.choice([0, 0, 0, 20, 35]))
+            x = rng.random()
+            if profile == "puberr":
+                sizes.append(rng.choice([300000, 300000, 8, 262144, 262145, 4]))
+            elif x < 0.08:
+                sizes.append(4)
+            elif x < 0.16:
+                sizes.append(NATS_MAX + rng.choice([1, 2, 1000]))
+            elif x < 0.20:
+                sizes.append(NATS_MAX)
+            else:
+                sizes.append(rng.choice([8, 8, 9, 64, 5000]))
+            share.append(rng.randrange(0, j) if j > 0 and rng.random() < 0.22 else -1)
+            badop.append(1 if share[-1] < 0 and rng.random() < 0.07 else 0)
+        reserve = rng.choice([0, 0, 1, 2]) if k > 1 else 0
+        reqs.append({"transport": "nats", "seed": rng.randrange(1, 2 ** 31), "callers": k, "steps": rng.randrange(*steps),
+                     "timeouts_ms": touts, "sizes": sizes, "share": share, "badop": badop, "reserve": min(reserve, k - 1), "profile": profile})
     return reqs
 
 
@@ -47,7 +87,76 @@ HANGS_NOT_REPRODUCED = 0
 def tok_case(q, r):
     ops = [int(x) for x in r["opids"]]
     dls = [1] * len(ops)      # SetTimeout(t > 0) always gives a deadline (t >= 1 ms)
-    return [ops, dls, [list(e) for e in r["events"]], r["reglen"], r["fresh"]]
+    kind = 1 if q.get("transport") == "nats" else 0
+    dks = list(r.get("datakinds") or [0] * len(ops))
+    return [kind, ops, dls, dks, [list(e) for e in r["events"]], r["reglen"], r["fresh"]]
+
+
+def oracle_nats(q, r):
+    """Direct statements on the observations of a NATS schedule (no model):
+    C01: a successful Request returned a frame published for ITS op id; SERVICE_NOT_AVAILABLE only after a 503 for ITS op id
+         was looked up successfully; a Register error only while another request with the same op id is in flight;
+         the empty frame returns (nil, nil) and oversize returns REQUEST_TOO_LARGE, nothing else does;
+    C06: the reader never blocked, discarded messages never reached dispatch, the fresh request was served;
+    C13: the registry holds exactly the requests that registered and have not returned - on every exit path."""
+    if r.get("panic"):
+        return "crash: " + r["panic"]
+    if r.get("hang"):
+        return r["hang"]
+    if r.get("unexpected"):
+        return r["unexpected"]
+    ops = r["opids"]
+    dks = r.get("datakinds") or [0] * len(ops)
+    tag_op = {}
+    inflight = set()
+    seen503 = set()
+    for e in r["events"]:
+        k, a, b, c = e
+        if k == 5:
+            tag_op[b] = ops[a] if a >= 0 else None
+        elif k == 11 and a >= 0 and c == 1:
+            seen503.add(ops[a])
+        elif k == 1:
+            if b == 0:
+                if ops[a] == "-1":
+                    return "caller %d was registered although its FContext has a malformed op id" % a
+                if any(ops[j] == ops[a] for j in inflight):
+                    return "caller %d registered op id %s while another request with it is in flight" % (a, ops[a])
+                if dks[a] == 1:
+                    return "caller %d sent an empty frame and was registered" % a
+                inflight.add(a)
+            elif b == 1:
+                if ops[a] != "-1" and not any(ops[j] == ops[a] for j in inflight):
+                    return "caller %d got a Register error, no request with op id %s is in flight" % (a, ops[a])
+            elif b == 2:
+                if dks[a] != 1:
+                    return "caller %d got (nil, nil) for a %d byte request" % (a, q["sizes"][a])
+            else:
+                return "caller %d: unexpected return before Register (class %d)" % (a, c)
+        elif k == 2:
+            if b == 1 and dks[a] != 2:
+                return "caller %d: REQUEST_TOO_LARGE for a %d byte request" % (a, q["sizes"][a])
+            if b == 0 and dks[a] == 2:
+                return "caller %d: a %d byte request was published" % (a, q["sizes"][a])
+            if b not in (0, 1):
+                return "caller %d: unexpected return after Register (class %d)" % (a, c)
+        elif k == 8:
+            inflight.discard(a)
+            if b == 1 and tag_op.get(c) != ops[a]:
+                return "caller %d (op id %s) completed with a frame published for op id %s" % (a, ops[a], tag_op.get(c))
+            if b == 5 and ops[a] not in seen503:
+                return "caller %d (op id %s) reported SERVICE_NOT_AVAILABLE, no 503 for its op id was dispatched" % (a, ops[a])
+            if b == 4:
+                return "caller %d returned an unexpected error (class %d)" % (a, c)
+        elif k == 9 and b != 0:
+            return "caller %d: a closed transport answered with class %d, not NOT_OPEN" % (a, c)
+        elif k == 6 and a < 0:
+            return "reader blocked in the channel send"
+    if r["reglen"] != len(inflight):
+        return "registry holds %d entries, %d requests are in flight" % (r["reglen"], len(inflight))
+    if r["fresh"] != 1:
+        return "a fresh request after the schedule was not served within 1.5 s"
+    return None
 
 
 def oracle(q, r):
@@ -56,6 +165,8 @@ def oracle(q, r):
          and the model checks the tag->opid relation; here: the tag was issued for that caller);
     C06: the reader never blocked and the fresh request was served;
     C13: every caller that timed out returned within timeout + allowance; registry holds only callers not yet returned."""
+    if q.get("transport") == "nats":
+        return oracle_nats(q, r)
     if r.get("panic"):
         return "crash: " + r["panic"]
     if r.get("hang"):
